@@ -20,7 +20,6 @@ import (
 	"fmt"
 	"os"
 	"path/filepath"
-	"sort"
 	"strconv"
 	"strings"
 	"sync"
@@ -68,6 +67,8 @@ type C struct {
 	states   map[uint64]struct{}
 	outcomes map[uint64]struct{}
 	sampleBy map[string]int
+
+	newStates, newOutcomes []uint64
 }
 
 func h64(s string) uint64 {
@@ -90,6 +91,7 @@ func (c *C) State(key string) bool {
 		return false
 	}
 	c.states[h] = struct{}{}
+	c.newStates = append(c.newStates, h)
 	return true
 }
 
@@ -102,6 +104,7 @@ func (c *C) Outcome(key string) bool {
 		return false
 	}
 	c.outcomes[h] = struct{}{}
+	c.newOutcomes = append(c.newOutcomes, h)
 	return true
 }
 
@@ -235,27 +238,38 @@ func Main(t *testing.T, property string, gen func(c *C) []Case) {
 		k.Run(c)
 		fmt.Printf("@@END %s\n", k.ID)
 		c.tot.Cases++
+		c.flush(false)
 	}
-	out := os.Getenv("VERIF_OUT")
-	if out != "" {
+	c.flush(true)
+}
+
+// flush writes the totals so far (so that a later crash of this worker loses nothing) and the
+// newly seen state/outcome hashes.
+func (c *C) flush(final bool) {
+	c.mu.Lock()
+	defer c.mu.Unlock()
+	if out := os.Getenv("VERIF_OUT"); out != "" {
 		tag := os.Getenv("VERIF_WORKER")
 		c.tot.StatesF = filepath.Join(out, "w"+tag+".states")
 		c.tot.OutcomesF = filepath.Join(out, "w"+tag+".outcomes")
-		appendSet(c.tot.StatesF, c.states)
-		appendSet(c.tot.OutcomesF, c.outcomes)
+		appendSet(c.tot.StatesF, c.newStates)
+		appendSet(c.tot.OutcomesF, c.newOutcomes)
+		c.newStates, c.newOutcomes = c.newStates[:0], c.newOutcomes[:0]
 	}
 	c.tot.Counters["states_local"] = int64(len(c.states))
 	c.tot.Counters["outcomes_local"] = int64(len(c.outcomes))
 	b, _ := json.Marshal(c.tot)
-	fmt.Printf("@@DONE %s\n", b)
+	if final {
+		fmt.Printf("@@DONE %s\n", b)
+	} else {
+		fmt.Printf("@@C %s\n", b)
+	}
 }
 
-func appendSet(path string, m map[uint64]struct{}) {
-	ks := make([]uint64, 0, len(m))
-	for k := range m {
-		ks = append(ks, k)
+func appendSet(path string, ks []uint64) {
+	if len(ks) == 0 {
+		return
 	}
-	sort.Slice(ks, func(i, j int) bool { return ks[i] < ks[j] })
 	buf := make([]byte, 8*len(ks))
 	for i, k := range ks {
 		binary.BigEndian.PutUint64(buf[8*i:], k)
